@@ -52,30 +52,41 @@ func status(r proxy.ConnectionResult, err error) string {
 	return map[proxy.ConnectionStatus]string{0: "Success", 1: "AlreadyConnected", 2: "InProgress", 3: "Canceled", 4: "ServerDisconnected"}[r.Status()]
 }
 
-// Two concurrent requests, a ServerPreConnectEvent subscriber that takes 5 ms: both pass the
-// in-flight check before either occupies the slot, both backends are dialled.
+// Two concurrent requests; the ServerPreConnectEvent subscriber (the event fires between the
+// in-flight check and the moment the slot is occupied) lets both return at the same instant:
+// both pass the second check before either occupies the slot, both backends are dialled.
 func TestReproConcurrentAdmission(t *testing.T) {
-	h, bs, c, pl := reproSetup(t, 763, map[string]e2e.Mode{"s1": e2e.HangLogin, "s2": e2e.HangLogin})
-	defer c.Close()
-	event.Subscribe(h.Ev, 0, func(*proxy.ServerPreConnectEvent) { time.Sleep(5 * time.Millisecond) })
-	ctx, cancel := context.WithTimeout(context.Background(), 300*time.Millisecond)
-	defer cancel()
-	var wg sync.WaitGroup
-	for _, n := range []string{"s1", "s2"} {
-		wg.Add(1)
-		go func(n string) {
-			defer wg.Done()
-			r, err := pl.CreateConnectionRequest(bs[n].Server()).Connect(ctx)
-			t.Logf("Connect(%s) -> %s", n, status(r, err))
-		}(n)
+	if os.Getenv("C16_REPRO") == "" {
+		t.Skip("set C16_REPRO=1")
 	}
-	time.Sleep(100 * time.Millisecond)
-	d1, d2 := bs["s1"].Dials(), bs["s2"].Dials()
-	wg.Wait()
-	t.Logf("while both requests were pending: s1 dialled %d time(s), s2 dialled %d time(s)", d1, d2)
-	if d1+d2 > 1 {
-		t.Errorf("DEFECT: two connection attempts in flight at once")
+	for try := 0; try < 200; try++ {
+		h, bs, c, pl := reproSetup(t, 763, map[string]e2e.Mode{"s1": e2e.HangLogin, "s2": e2e.HangLogin})
+		var arrived sync.WaitGroup
+		arrived.Add(2)
+		event.Subscribe(h.Ev, 0, func(*proxy.ServerPreConnectEvent) { arrived.Done(); arrived.Wait() })
+		ctx, cancel := context.WithTimeout(context.Background(), 100*time.Millisecond)
+		var wg sync.WaitGroup
+		res := make([]string, 2)
+		for i, n := range []string{"s1", "s2"} {
+			wg.Add(1)
+			go func(i int, n string) {
+				defer wg.Done()
+				r, err := pl.CreateConnectionRequest(bs[n].Server()).Connect(ctx)
+				res[i] = status(r, err)
+			}(i, n)
+		}
+		time.Sleep(50 * time.Millisecond)
+		d1, d2 := bs["s1"].Dials(), bs["s2"].Dials()
+		wg.Wait()
+		cancel()
+		c.Close()
+		if d1+d2 > 1 {
+			t.Logf("try %d: Connect(s1) -> %s, Connect(s2) -> %s; while both were pending s1 was dialled %d time(s) and s2 %d time(s)", try, res[0], res[1], d1, d2)
+			t.Errorf("DEFECT: two connection attempts in flight at once")
+			return
+		}
 	}
+	t.Logf("200 tries: never more than one attempt in flight")
 }
 
 // A is in flight (backend never answers). B (plain Connect) is correctly reported InProgress,
@@ -198,4 +209,81 @@ func TestReproConfigAckBeforeHandler(t *testing.T) {
 	} else {
 		t.Logf("%d joins completed", n)
 	}
+}
+
+// 1.20.2+: B is switching the player to s2 (the previous server is given up as soon as s2
+// accepted the login; s2 then takes its time in the configuration phase). A, an earlier
+// ConnectWithIndication to a refusing server, is still in its failure handling (the
+// KickedFromServerEvent subscriber takes 40 ms); when it goes on it finds "no current server"
+// and disconnects the player instead of just telling it that s1 is unreachable.
+func TestReproFailureHandlingDisconnectsMidSwitch(t *testing.T) {
+	h, bs, c, pl := reproSetup(t, 767, map[string]e2e.Mode{"s1": e2e.RefuseDial, "s2": e2e.HangConfig})
+	defer c.Close()
+	event.Subscribe(h.Ev, 0, func(*proxy.KickedFromServerEvent) { time.Sleep(40 * time.Millisecond) })
+	go pl.CreateConnectionRequest(bs["s1"].Server()).ConnectWithIndication(context.Background())
+	time.Sleep(10 * time.Millisecond)
+	go pl.CreateConnectionRequest(bs["s2"].Server()).Connect(context.Background()) // stays in the configuration phase
+	time.Sleep(150 * time.Millisecond)
+	if k := c.Kicked(); k != nil || c.EOF() {
+		t.Errorf("DEFECT: the failed request to s1 disconnected the player in the middle of its switch to s2: %s", e2e.ReasonText(k))
+	} else {
+		t.Logf("player still connected; switch to s2 still in progress")
+	}
+}
+
+// 1.20.2+: a kick in the configuration phase closes the connection BEFORE handing the kick
+// to the waiting request, so the request gets "unexpectedly disconnected" instead of
+// ServerDisconnected + reason (and, once the request has returned, the handler runs the
+// fallback for the same kick a second time).
+func TestReproConfigKickReasonLost(t *testing.T) {
+	_, bs, c, pl := reproSetup(t, 767, map[string]e2e.Mode{"s1": e2e.KickConfig})
+	defer c.Close()
+	r, err := pl.CreateConnectionRequest(bs["s1"].Server()).Connect(context.Background())
+	t.Logf("Connect(s1: kick in configuration) -> %s", status(r, err))
+	if err != nil || r.Status() != proxy.ServerDisconnectedConnectionStatus || r.Reason() == nil {
+		t.Errorf("DEFECT: the backend's kick (and its reason) did not reach the request")
+	}
+}
+
+// 1.20.2+: while a switch tells the client to re-enter the configuration phase, the writer
+// state is set to CONFIG and the play-packet queue is switched on in two separate steps. A
+// play packet written by another goroutine in between (here: chat messages, as
+// ConnectWithIndication sends them for "already connecting") is encoded for CONFIG, fails,
+// and the player's connection is closed.
+func TestReproMessageDuringConfigSwitch(t *testing.T) {
+	if os.Getenv("C16_REPRO") == "" {
+		t.Skip("set C16_REPRO=1")
+	}
+	for try := 0; try < 1500; try++ {
+		_, bs, c, pl := reproSetup(t, 767, nil)
+		stop := make(chan struct{})
+		var wg sync.WaitGroup
+		wg.Add(1)
+		go func() {
+			defer wg.Done()
+			for {
+				select {
+				case <-stop:
+					return
+				default:
+					// what ConnectWithIndication does for an InProgress result (paced: the
+					// play-packet queue is bounded and closes the connection when flooded)
+					_ = pl.CreateConnectionRequest(bs["s0"].Server()).ConnectWithIndication(context.Background())
+					time.Sleep(50 * time.Microsecond)
+				}
+			}
+		}()
+		r, err := pl.CreateConnectionRequest(bs["s1"].Server()).Connect(context.Background())
+		close(stop)
+		wg.Wait()
+		time.Sleep(2 * time.Millisecond)
+		gone := c.EOF()
+		c.Close()
+		if gone {
+			t.Logf("try %d: Connect(s1) -> %s; the client connection was closed by the proxy (no disconnect packet: %v)", try, status(r, err), c.Kicked() == nil)
+			t.Errorf("DEFECT: a message sent while the switch was in progress closed the player's connection")
+			return
+		}
+	}
+	t.Logf("1500 switches with concurrent messages: player never disconnected")
 }
